@@ -103,7 +103,7 @@ func init() {
 		"determinism of the dependencies (rassemble-go, regexp, sort, mergo on map[string]string) is assumed; determinism of the exit status under I/O faults is not examined.",
 		[]string{"rassemble-go v0.1.2, regexp, sort and mergo (for map[string]string) are deterministic"},
 		func(c *Ctx, tier string) []*Result {
-			return []*Result{c.RuleMapOrder(), c.RuleRxDisjoint(tier == "thorough"), c.RuleDefFragment(), c.RuleNondetSrc([]string{"generate", "update", "compare", "format"}), c.RuleOrderKey(), c.RuleSuffixOps(), c.RuleIsoGlobal("unit:(*regex/operators.Operator).Run"), keyHas(c.RuleIsoFresh(), 2, "cmd update", "cmd compare"), c.RuleLogStderr(), c.RuleStdoutPure(), c.RuleGoShared(), c.RuleCtorDefaults(), c.RuleIsoGlobal("update", "compare", "format"), c.RuleLimitRead()}
+			return []*Result{c.RuleMapOrder(), c.RuleRxDisjoint(tier == "thorough"), c.RuleDefFragment(), c.RuleNondetSrc([]string{"generate", "update", "compare", "format"}), c.RuleOrderKey(), c.RuleSuffixOps(), c.RuleIsoGlobal("unit:(*regex/operators.Operator).Run"), keyHas(c.RuleIsoFresh(), 2, "cmd update", "cmd compare"), c.RuleLogStderr(), c.RuleStdoutPure(), c.RuleGoShared(), c.RuleCtorDefaults(), c.RuleIsoGlobal("update", "compare", "format"), c.RuleLimitRead(), c.RuleRecvCopy(), c.RuleIncludeName()}
 		})
 
 	prop("C05", "other",
@@ -144,7 +144,7 @@ func init() {
 		"byte equality of the reports (the compare summary lines are value-level).",
 		nil,
 		func(c *Ctx, tier string) []*Result {
-			return []*Result{c.RuleIsoFresh(), c.RuleIsoGlobal("update", "compare", "format"), c.RuleSiblingRuleId(), c.RuleWalkSkip(), c.RuleWalkFilter("update", "compare", "format"), c.RuleErrWrap(), c.RuleRxGrammar(), c.RuleResolve(), keyHas(c.RuleFsGuard([]string{"format"}), 1, "cmd format"), keyHas(c.RuleFsTarget([]string{"format"}), 1, "cmd format"), c.RuleGoShared(), c.RuleCutset(), c.RulePathForm(), c.RuleWalkStop()}
+			return []*Result{c.RuleIsoFresh(), c.RuleIsoGlobal("update", "compare", "format"), c.RuleSiblingRuleId(), c.RuleWalkSkip(), c.RuleWalkFilter("update", "compare", "format"), c.RuleErrWrap(), c.RuleRxGrammar(), c.RuleResolve(), keyHas(c.RuleFsGuard([]string{"format"}), 1, "cmd format"), keyHas(c.RuleFsTarget([]string{"format"}), 1, "cmd format"), c.RuleGoShared(), c.RuleCutset(), c.RulePathForm(), c.RuleWalkStop(), c.RuleRecvCopy()}
 		})
 
 	prop("C09", "other",
@@ -155,7 +155,7 @@ func init() {
 		func(c *Ctx, tier string) []*Result {
 			return []*Result{keyHas(c.RuleFsGuard([]string{"format"}), 1, "cmd format"), c.RuleFsSame([]string{"format"}),
 				inFns(c.RuleErrFlags(), c.cmdFns("format"), 0), keyHas(c.RuleFsAlways([]string{"format"}), 1, "cmd format"), inFns(c.RuleFsWriteDiscipline(), c.cmdFns("format"), 1), c.RuleFormatOnly(),
-				c.RuleWalkSkip("format"), c.RuleWalkFilter("format"), inFns(c.RuleResolve(), c.cmdFns("format"), 1), c.RulePredPure(), c.RuleFmtTrim(), inFns(c.errHandleOnly(), c.cmdFns("format"), 2), inFns(c.RuleErrLog(), c.cmdFns("format"), 1), c.RuleExactCompare(), c.RulePatternPin("regex.ProcessorEndRegex", "regex.ProcessorStartRegex"), c.RuleReadLine(), c.RuleBorrow(), c.RuleScanSplit(), c.RuleCtorDefaults(), c.RuleErrorfNil(), c.RuleLineKeep(c.lineKeepScope("cmd"), 0), c.RuleLitGuard(), c.RuleAppendAlias()}
+				c.RuleWalkSkip("format"), c.RuleWalkFilter("format"), inFns(c.RuleResolve(), c.cmdFns("format"), 1), c.RulePredPure(), c.RuleFmtTrim(), inFns(c.errHandleOnly(), c.cmdFns("format"), 2), inFns(c.RuleErrLog(), c.cmdFns("format"), 1), c.RuleExactCompare(), c.RulePatternPin("regex.ProcessorEndRegex", "regex.ProcessorStartRegex"), c.RuleReadLine(), c.RuleBorrow(), c.RuleScanSplit(), c.RuleCtorDefaults(), c.RuleErrorfNil(), c.RuleLineKeep(c.lineKeepScope("cmd"), 0), c.RuleLitGuard(), c.RuleAppendAlias(), c.RuleIsoGlobal("format"), c.RuleRecvCopy()}
 		})
 
 	prop("C10", "other",
@@ -168,7 +168,7 @@ func init() {
 			drop, handle := c.RuleErrCached()
 			_ = drop
 			return []*Result{inFns(c.RuleRxRebuild(), fmtFns, 7), c.RuleRxDisjoint(tier == "thorough"), inFns(c.RuleRxGroups(), fmtFns, 7),
-				inFns(handle, fmtFns, 2), inFns(c.RuleErrLog(), fmtFns, 2), c.RuleFormatOnly(), inFns(c.RuleFsWriteDiscipline(), fmtFns, 1), c.RulePrintfConst(), c.RuleProcStart(), c.RulePredPure(), c.RuleFmtTrim(), c.RuleExactCompare(), c.RuleBufAlias(), c.RulePatternPin("regex.IncludeRegex", "regex.IncludeExceptRegex", "regex.DefinitionRegex", "regex.FlagsRegex", "regex.PrefixRegex", "regex.SuffixRegex", "regex.CommentRegex", "regex.ProcessorEndRegex", "regex.ProcessorStartRegex"), c.RuleReadLine(), c.RuleBorrow(), c.RuleScanSplit(), c.RuleDoubleWrap(), c.RuleStdoutPure(), c.RuleLineKeep(c.lineKeepScope("cmd"), 0), c.RuleLitGuard(), c.RulePrintfConst(), c.RuleAppendAlias(), c.RuleFormatLine()}
+				inFns(handle, fmtFns, 2), inFns(c.RuleErrLog(), fmtFns, 2), c.RuleFormatOnly(), inFns(c.RuleFsWriteDiscipline(), fmtFns, 1), c.RulePrintfConst(), c.RuleProcStart(), c.RulePredPure(), c.RuleFmtTrim(), c.RuleExactCompare(), c.RuleBufAlias(), c.RulePatternPin("regex.IncludeRegex", "regex.IncludeExceptRegex", "regex.DefinitionRegex", "regex.FlagsRegex", "regex.PrefixRegex", "regex.SuffixRegex", "regex.CommentRegex", "regex.ProcessorEndRegex", "regex.ProcessorStartRegex"), c.RuleReadLine(), c.RuleBorrow(), c.RuleScanSplit(), c.RuleDoubleWrap(), c.RuleStdoutPure(), c.RuleLineKeep(c.lineKeepScope("cmd"), 0), c.RuleLitGuard(), c.RulePrintfConst(), c.RuleAppendAlias(), c.RuleFormatLine(), c.RuleIsoGlobal("format")}
 		})
 
 	prop("C11", "other",
@@ -195,7 +195,7 @@ func init() {
 			}
 			return []*Result{c.RuleSiblingLocator(), c.RuleCompareVerdict(), keyHas(inFns(c.RuleRxGroups(), both, 1), 1, "regex.RuleRxRegex"),
 				inFns(c.RuleErrFlags(), c.cmdFns("compare"), 0), c.RuleTemplate(c.cmdFns("update")), inFns(c.RuleRxRebuild(), c.cmdFns("update"), 1),
-				inFns(c.RuleNarrow(), both, 1), c.RuleSiblingRuleId(), c.RuleSplitJoinFrame(), c.RuleIsoGlobal("update", "compare"), inPkg(c.RuleMapOrder(), 2, "regex/parser"), c.RuleErrWrap(), c.RuleValidateStore(), c.RuleWriteReached("update"), c.RuleLogStderr(), c.RuleStdoutPure(), c.RuleRxGrammar(), c.RuleWalkSkip("update", "compare"), inFns(c.RuleValidate(), c.cmdFns("update"), 1), c.RulePrintfConst(), keyHas(c.RuleResolve(), 1, "input of the assembler"), c.RuleExactCompare(), c.RulePatternPin("regex.RuleRxRegex", "regex.SecRuleRegex"), c.RuleReadLine(), c.RuleBorrow(), c.RuleSearchResume(), inFns(c.errHandleOnly(), c.cmdFns("compare"), 1), c.RuleLitGuard(), c.RuleLocComment(), c.RuleErrorfNil(), c.RuleAppendAlias(), c.RuleOperandVerbatim()}
+				inFns(c.RuleNarrow(), both, 1), c.RuleSiblingRuleId(), c.RuleSplitJoinFrame(), c.RuleIsoGlobal("update", "compare"), inPkg(c.RuleMapOrder(), 2, "regex/parser"), c.RuleErrWrap(), c.RuleValidateStore(), c.RuleWriteReached("update"), c.RuleLogStderr(), c.RuleStdoutPure(), c.RuleRxGrammar(), c.RuleWalkSkip("update", "compare"), inFns(c.RuleValidate(), c.cmdFns("update"), 1), c.RulePrintfConst(), keyHas(c.RuleResolve(), 1, "input of the assembler"), c.RuleExactCompare(), c.RulePatternPin("regex.RuleRxRegex", "regex.SecRuleRegex"), c.RuleReadLine(), c.RuleBorrow(), c.RuleSearchResume(), inFns(c.errHandleOnly(), c.cmdFns("compare"), 1), c.RuleLitGuard(), c.RuleLocComment(), c.RuleErrorfNil(), c.RuleAppendAlias(), c.RuleOperandVerbatim(), c.RuleRecvCopy()}
 		})
 
 	prop("C13", "other",
@@ -207,7 +207,7 @@ func init() {
 			return []*Result{keyHas(c.RuleFsGuard([]string{"renumber-tests"}), 1, "cmd renumber-tests"), c.RuleFsSame([]string{"renumber-tests"}),
 				keyHas(c.RuleFsTarget([]string{"renumber-tests"}), 1, "cmd renumber-tests"), inFns(c.RuleRxRebuild(), c.cmdFns("renumber-tests"), 2),
 				inFns(c.RuleScanErr(), c.cmdFns("renumber-tests"), 0), c.RuleReadEOF(), inFns(c.RuleRxGroups(), c.cmdFns("renumber-tests"), 3), c.RuleIsoGlobal("renumber-tests"),
-				inFns(c.RuleErrFlags(), c.cmdFns("renumber-tests"), 0), c.RuleFsAlways([]string{"renumber-tests"}), inFns(c.RuleFsWriteDiscipline(), c.cmdFns("renumber-tests"), 1), c.RuleWalkFilter("renumber-tests"), c.RuleWalkSkip("renumber-tests"), inFns(c.errHandleOnly(), c.cmdFns("renumber-tests"), 2), c.RuleRxSibling(), c.RuleTestFileGrammar(), c.RuleBufAlias(), c.RulePatternPin("regex.TestIdRegex", "regex.TestTitleRegex"), c.RuleReadLine(), c.RuleBorrow(), c.RuleBufwFlush(), c.RuleErrorfNil(), c.RuleLineKeep(c.lineKeepScope("util"), 0), c.RuleAppendAlias(), c.RulePathForm()}
+				inFns(c.RuleErrFlags(), c.cmdFns("renumber-tests"), 0), c.RuleFsAlways([]string{"renumber-tests"}), inFns(c.RuleFsWriteDiscipline(), c.cmdFns("renumber-tests"), 1), c.RuleWalkFilter("renumber-tests"), c.RuleWalkSkip("renumber-tests"), inFns(c.errHandleOnly(), c.cmdFns("renumber-tests"), 2), c.RuleRxSibling(), c.RuleTestFileGrammar(), c.RuleBufAlias(), c.RulePatternPin("regex.TestIdRegex", "regex.TestTitleRegex"), c.RuleReadLine(), c.RuleBorrow(), c.RuleBufwFlush(), c.RuleErrorfNil(), c.RuleLineKeep(c.lineKeepScope("util"), 0), c.RuleAppendAlias(), c.RulePathForm(), c.RuleRecvCopy()}
 		})
 
 	prop("C14", "other",
@@ -245,7 +245,7 @@ func init() {
 		nil,
 		func(c *Ctx, tier string) []*Result {
 			return []*Result{c.RuleEscMatch(), c.RuleScanBound(), c.RuleRxGroups(), c.RuleIdxParam(), keyHas(c.RuleValidate(), 1, "odd-length"), c.RulePrintfConst(), c.RuleLastIndex(), c.RuleDefFragment(), c.RuleRecBound(),
-				inPkg(c.errHandleOnly(), 10, "regex/parser", "regex/operators", "regex/processors"), inPkg(c.RuleErrLog(), 5, "regex/parser", "regex/operators", "regex/processors"), c.RuleNoRecover(), c.RuleDeferInLoop(), c.RuleStrIndex(), c.RuleRangeIndex(), c.RuleLoopProgress(), c.RuleCtorNonNil(), c.RuleEscPos(), c.RuleSearchResume(), c.RuleIdxArray(), c.RuleGoShared(), c.RuleLitGuard(), c.RuleLoopReplace()}
+				inPkg(c.errHandleOnly(), 10, "regex/parser", "regex/operators", "regex/processors"), inPkg(c.RuleErrLog(), 5, "regex/parser", "regex/operators", "regex/processors"), c.RuleNoRecover(), c.RuleDeferInLoop(), c.RuleStrIndex(), c.RuleRangeIndex(), c.RuleLoopProgress(), c.RuleCtorNonNil(), c.RuleEscPos(), c.RuleSearchResume(), c.RuleIdxArray(), c.RuleGoShared(), c.RuleLitGuard(), c.RuleLoopReplace(), c.RuleIdxCall()}
 		})
 
 	prop("C20", "other",
